@@ -632,6 +632,7 @@ func (t *Term) writeBody(sb *strings.Builder, names map[int]string) {
 // shared sub-terms, then the given assertions.
 type Script struct {
 	Asserts []*Term
+	Watch   []*Term
 }
 
 func collect(t *Term, cnt map[int]int, order *[]*Term, bound map[int]bool, hasBound map[int]bool) bool {
@@ -678,6 +679,9 @@ func (s *Script) Render(logic string, opts []string) string {
 	hasBound := map[int]bool{}
 	var order []*Term
 	for _, a := range s.Asserts {
+		collect(a, cnt, &order, map[int]bool{}, hasBound)
+	}
+	for _, a := range s.Watch {
 		collect(a, cnt, &order, map[int]bool{}, hasBound)
 	}
 	var sb strings.Builder
@@ -736,6 +740,11 @@ func (s *Script) Render(logic string, opts []string) string {
 			sb.WriteString(")\n")
 			names[t.id] = n
 		}
+	}
+	for i, w := range s.Watch {
+		fmt.Fprintf(&sb, "(define-fun w!%d () %s ", i, w.Sort)
+		w.write(&sb, names)
+		sb.WriteString(")\n")
 	}
 	for _, a := range s.Asserts {
 		sb.WriteString("(assert ")
